@@ -224,3 +224,8 @@ package mat
 //@   assert before "m.init(dto.Rows, dto.Cols)": dto.Rows > 0 && dto.Cols > 0 && len(dto.Data) == dto.Rows * dto.Cols
 //@   loop range(dto.Data)
 //@     invariant true
+
+//@ func NewMatrixModule
+//@   property C20
+//@   ensures (err == nil) == (rows != 0 && cols != 0 && ring != nil)
+//@   ensures err == nil ==> result != nil && result.rows == rows && result.cols == cols && result.baseStructure == ring
